@@ -28,6 +28,7 @@ RULE = ('Entry "permute": generated C01/C02 cases; the same sources are fitted w
         'source is fitted again after a different one.')
 RULE += (' ' + 'Also varied: mixed named / wavelength filter lists with cube and convolved files in different units, the same filter listed twice.')
 RULE += (' ' + 'History machine: unnamed sources, memory-mapped cube cases, and an other_fitter rule (a second fitter with reversed filters / other ranges is created, used and kept alive).')
+RULE += (' ' + 'The brightness-scaling sources also carry flag-4 points (log10 flux shifted by log10 of the constant, often across 0). (Limits are left out here: a grid model may equal the data exactly, and a limit sitting exactly on the model flips with rounding.)')
 ASSUMPTIONS = [
     'paired runs that change the summation order are compared at 1e-9 relative (+1e-13*cond on the 2-D parameters)',
     'history independence and source immutability are compared bit-exactly (same operations, same bits)',
@@ -52,7 +53,7 @@ def compare(a, b, names, mode, conds, what, sig, sc_shift=0., conds_T=None):
         scale = max(abs(c1), abs(c2), 1., conds_T.get('T', 0.) if isinstance(conds_T, dict) else 0.)
         if not abs(c1 - c2) <= (1e-9 + 100. * (2.3e-16 * conds[m]) ** 2) * scale:
             fail('%s: chi2 of model %s: %r vs %r' % (what, name, c1, c2), sig)
-        if mode == '3d' and abs(sc1 - sc2) > 1e-9:
+        if mode == '3d' and not (abs(sc1 - sc2) <= 1e-9):
             continue  # a chi^2 tie between two grid distances, established by the comparison above
         ptol = 1e-9 + 1e-13 * conds[m]
         if not (abs(av1 - av2) <= ptol * (1 + abs(av1)) and abs(sc1 - sc2) <= ptol * (1 + abs(sc1))):
@@ -172,7 +173,9 @@ def rescale_cases(draw):
     k = of.extinction_pattern(c['law']['wav'], c['law']['chi'], [f['wav'] for f in c['filters']])
     srcs = []
     for s in c['sources']:
-        flags = draw(st.lists(st.sampled_from((1, 1, 1, 0, 9)), min_size=nf, max_size=nf))
+        flags = draw(st.lists(st.sampled_from((1, 1, 1, 4, 4, 0, 9)), min_size=nf, max_size=nf))
+        if sum(1 for f in flags if f in (1, 4)) < 2:
+            flags[0], flags[-1] = 1, 4
         srcs.append(draw(gen.sources(nf, k=k, logmodels=c['grid']['logflux'], flags=list(flags), ignored='positive')))
     c['sources'] = srcs
     c['factor'] = draw(st.one_of(gen.logfloat(1e-4, 1e4), st.sampled_from([10., 100., 1e-3, 2.])))
@@ -198,8 +201,12 @@ def run_rescale(case, ctx):
                 labels.add('singular_source_skipped')
                 continue
             scaled = dict(src)
-            scaled['flux'] = [v * cfac for v in src['flux']]
-            scaled['err'] = [v * cfac if f not in (2, 3) else v for f, v in zip(src['flags'], src['err'])]
+            # (a flag-4 point carries log10 flux and an error in dex: brighter by c means + log10 c, same error; the error
+            # column of a limit is its confidence)
+            scaled['flux'] = [v + math.log10(cfac) if f == 4 else v * cfac for f, v in zip(src['flags'], src['flux'])]
+            scaled['err'] = [v * cfac if f not in (2, 3, 4) else v for f, v in zip(src['flags'], src['err'])]
+            if any(f == 4 and (v > 0.) != (w > 0.) for f, v, w in zip(src['flags'], src['flux'], scaled['flux'])):
+                labels.add('flag4_log_flux_changes_sign')
             t0 = dict(LAST_T)
             conds_for(case, scaled, av_range, '2d')
             LAST_T['T'] = max(LAST_T.get('T', 0.), t0.get('T', 0.))
